@@ -72,7 +72,8 @@ def catch_up(cur, nxt, diff):
 def main():
     args = [a for a in sys.argv[1:] if not a.startswith('--')]
     final_only = '--final-only' in sys.argv
-    sets = args or sorted(os.listdir(os.path.join(HERE, 'benign')))
+    sets = args or sorted(x for x in os.listdir(os.path.join(HERE, 'benign'))
+                          if os.path.isdir(os.path.join(HERE, 'benign', x)))
     tmp = tempfile.mkdtemp(prefix='benignc_', dir='/var/tmp')
     states = []
     try:
